@@ -782,7 +782,16 @@ namespace occa {
           vendor_ = (1 << vendorBit);
         }
 
-        io::write(outFilename, std::to_string(vendor_));
+        // Readers trust [output] as soon as it exists, so it must never be
+        // visible half-written: stage it like every other cache entry
+        io::stageFile(
+          outFilename,
+          true,
+          [&](const std::string &tempFilename) -> bool {
+            io::write(tempFilename, std::to_string(vendor_));
+            return true;
+          }
+        );
 
         return vendor_;
       }
